@@ -162,9 +162,24 @@ class ExitStackVal:
 class GenVal:
     """a one-shot iterator over already computed items"""
 
-    def __init__(self, items):
-        self.items = list(items)
+    def __init__(self, items=(), thunk=None):
+        self._items = list(items) if thunk is None else None
+        self.thunk = thunk
         self.pos = 0
+
+    @property
+    def items(self):
+        # a generator expression computes its items when they are first asked for, with the variables of the enclosing
+        # scope as they are *then* (python's late binding); only its outermost iterable is evaluated where it is written
+        if self._items is None:
+            t, self.thunk = self.thunk, None
+            self._items = []
+            self._items = list(t())
+        return self._items
+
+    @items.setter
+    def items(self, v):
+        self._items = list(v)
 
     def take_all(self):
         r = self.items[self.pos:]
